@@ -227,6 +227,19 @@ LRNullPrefix ==
      {<<SeqE("of", p \o <<A, Ref(2)>>), Opt(Ref(1))>> : p \in pre} \cup
      {<<SeqE("many", <<SeqE("of", p \o <<A, Opt(Ref(1))>>)>>)>> : p \in {<<Opt(Bt)>>, <<Eps>>}}
 
+\* one memoised nonterminal reaching the SAME alternative list twice at one position without being re-wrapped (the cached
+\* node object arrives twice; the plain grammar builds two equal nodes), and one memoised nonterminal used under
+\* SuppressError first and outside it afterwards (what its first evaluation recorded in the context must stay recorded)
+DupAndSuppress ==
+  LET q == {SeqE("of", <<A, Bt>>), SeqE("of", <<A>>), SeqE("many1", <<A>>), AnyE(<<SeqE("of", <<A, Bt, A>>), A>>),
+            AnyE(<<SeqE("of", <<A>>), SeqE("of", <<A, Bt>>)>>)}
+      p == {AnyE(<<Ref(2), ChoiceE(<<X, Ref(2)>>)>>), AnyE(<<Ref(2), Opt(Ref(2))>>), AnyE(<<Ref(2), Ref(2)>>),
+            SeqE("of", <<AnyE(<<Ref(2), Ref(2)>>), Opt(Bt)>>), AnyE(<<Ref(2), SeqE("of", <<Ref(2)>>)>>),
+            AnyE(<<SeqE("of", <<SuppressE(Ref(2)), X>>), SeqE("of", <<Ref(2), Bt>>)>>),
+            AnyE(<<SeqE("of", <<Ref(2), Bt>>), SeqE("of", <<SuppressE(Ref(2)), X>>)>>),
+            SeqE("of", <<SuppressE(Opt(SeqE("of", <<Ref(2), X>>))), Ref(2), Opt(Bt)>>)}
+  IN {<<x, y>> : x \in p, y \in q}
+
 \* Optional directly over (curtailed) left-recursive calls, two nonterminals that meet at the same position from different contexts
 OptLR ==
   LET n1 == {AnyE(<<A, Opt(Ref(2))>>), Opt(SeqE("of", <<Ref(1), Ref(2), A>>)), Opt(SeqE("of", <<Ref(1), Ref(2)>>)),
